@@ -452,8 +452,9 @@ func isListPtr(t types.Type) bool {
 }
 
 var syncTypeMap = map[string]string{
-	"sync.Mutex": "Mutex", "sync.RWMutex": "RWMutex", "sync.Once": "Once", "sync.Map": "Map", "sync.Pool": "Pool",
+	"sync.Mutex": "Mutex", "sync.RWMutex": "RWMutex", "sync.Once": "Once", "sync.Map": "Map", "sync.Pool": "Pool", "sync.WaitGroup": "WaitGroup",
 	"sync/atomic.Value": "AtomicValue", "sync/atomic.Int32": "AtomicInt32", "sync/atomic.Int64": "AtomicInt64", "sync/atomic.Bool": "AtomicBool",
+	"sync/atomic.Uint32": "AtomicUint32", "sync/atomic.Uint64": "AtomicUint64", "sync/atomic.Pointer": "AtomicPointer",
 }
 
 var syncOK = map[string]bool{"sync.Locker": true}
@@ -537,7 +538,7 @@ func (r *rewriter) rewriteFile() {
 					x.X, x.Sel = ast.NewIdent("simrt"), ast.NewIdent(to)
 					r.usedSimrt = true
 				} else if !syncOK[full] {
-					r.unsupported(x, full+" (only Mutex, RWMutex, Once, Map, Pool are simulated)")
+					r.unsupported(x, full+" (only Mutex, RWMutex, Once, Map, Pool, WaitGroup are simulated)")
 				}
 			case path == "sync/atomic":
 				if to, ok := syncTypeMap[full]; ok {
@@ -561,8 +562,6 @@ func (r *rewriter) rewriteFile() {
 			case unsupportedPkgs[path]:
 				r.unsupported(x, full+" (package outside the simulator's control)")
 			}
-		case *ast.GoStmt:
-			r.unsupported(x, "go statement")
 		case *ast.SelectStmt:
 			r.unsupported(x, "select statement")
 		case *ast.SendStmt:
@@ -776,7 +775,21 @@ func (r *rewriter) stmt(s ast.Stmt) ast.Stmt {
 	case *ast.DeferStmt:
 		x.Call = r.expr(x.Call, mRd).(*ast.CallExpr)
 	case *ast.GoStmt:
-		x.Call = r.expr(x.Call, mRd).(*ast.CallExpr)
+		// go f(a, b)  ->  { t0, t1 := a, b; simrt.Go(func() { f(t0, t1) }) }   (arguments are evaluated now, as Go does)
+		call := r.expr(x.Call, mRd).(*ast.CallExpr)
+		var pre []ast.Stmt
+		for i, a := range call.Args {
+			if _, isLit := a.(*ast.BasicLit); isLit {
+				continue
+			}
+			r.tmp++
+			id := ast.NewIdent(fmt.Sprintf("simGoArg%d", r.tmp))
+			pre = append(pre, &ast.AssignStmt{Lhs: []ast.Expr{id}, Tok: token.DEFINE, Rhs: []ast.Expr{a}})
+			call.Args[i] = ast.NewIdent(id.Name)
+		}
+		body := &ast.BlockStmt{List: []ast.Stmt{&ast.ExprStmt{X: call}}}
+		goCall := &ast.ExprStmt{X: &ast.CallExpr{Fun: r.simrtSel("Go"), Args: []ast.Expr{&ast.FuncLit{Type: &ast.FuncType{Params: &ast.FieldList{}}, Body: body}}}}
+		return &ast.BlockStmt{List: append(pre, goCall)}
 	case *ast.LabeledStmt:
 		x.Stmt = r.stmt(x.Stmt)
 	case *ast.BranchStmt, *ast.EmptyStmt:
